@@ -389,7 +389,11 @@ def _setup_round(chk, ctx) -> None:
         for c in p.calls():
             if c.value == ('self', '_update_betting'):
                 kw = dict(unversion(c.term)[4])
-                ok_end.see(kw.get('status') == T.spec('len(self.actor_indices) == 1 and self.bets[self.actor_indices[0]] >= max(self.bets)', boolean=True))
+                want_end = T.spec('len(self.actor_indices) == 1 and self.bets[self.actor_indices[0]] >= max(self.bets)', boolean=True)
+                k = p.events.index(c)
+                before = [unversion(x.term) for x in p.events[:k] if x.kind == 'assume']
+                got_end = kw.get('status')
+                ok_end.see(got_end == want_end or (got_end is not None and T.truthy(got_end) == T.under(want_end, before)))
     chk.ob('C03.S10', f'State.{name}', all((ok_q, ok_rot, ok_drop, ok_reset, ok_end, ok_bring)), fi.loc,
            'a round starts with everybody from the opener clockwise, minus players who are out, have no chips, or cannot be called by anybody; '
            'it ends at once iff the only actor has already matched; raise bookkeeping is reset; the bring-in is due on the first street only',
